@@ -41,7 +41,9 @@ type Census struct {
 	Desc string
 }
 
-func (c Census) String() string { return fmt.Sprintf("CENSUS live-library-goroutines=%d %s", c.N, c.Desc) }
+func (c Census) String() string {
+	return fmt.Sprintf("CENSUS live-library-goroutines=%d %s", c.N, c.Desc)
+}
 
 func c10Run(p c10Params) func() {
 	return func() {
